@@ -5,7 +5,6 @@
 
 use crate::caps::Caps;
 use crate::comps::*;
-use crate::ledger::give_back;
 use serde_json::{json, Value};
 use specs::prelude::*;
 use specs::storage::{AccessMut, GenericWriteStorage, StorageEntry};
@@ -75,6 +74,11 @@ fn wr<T: Component>(world: &World) -> WriteStorage<'_, T> {
         1 => world.write_component::<T>(),
         _ => world.system_data::<WriteStorage<T>>(),
     }
+}
+
+fn give_back<T: TokComp>(v: T) {
+    v.on_return();
+    crate::ledger::give_back(v);
 }
 
 fn optjs<T: TokComp>(o: Option<&T>) -> Value {
@@ -743,5 +747,6 @@ pub fn ops_for(kind: &str, n: u8) -> Box<dyn StoreOps> {
           "null" => CNull, "f_vec" => CFVec, "f_dense" => CFDense, "f_hash" => CFHash,
           "f_btree" => CFBTree, "f_defvec" => CFDefVec, "f_null" => CFNull, "d_vec" => CDVec,
           "d_dense" => CDDense, "d_hash" => CDHash, "d_btree" => CDBTree, "d_defvec" => CDDefVec,
-          "d_null" => CDNull)
+          "d_null" => CDNull, "p_vec" => CPVec, "p_dense" => CPDense, "p_hash" => CPHash,
+          "p_btree" => CPBTree, "p_defvec" => CPDefVec, "pf_hash" => CPFHash)
 }
